@@ -2132,6 +2132,9 @@ func (self *LockDB) Lock(serverProtocol ServerProtocol, command *protocol.LockCo
 						}
 						currentLock.ackCount = 0xff
 					}
+					// answered at once: the record of this update must not enter the acknowledgement
+					// bookkeeping (as for a further level of a hold)
+					command.TimeoutFlag &^= protocol.TIMEOUT_FLAG_REQUIRE_ACKED
 					if currentLock.isAof {
 						_ = lockManager.PushLockAof(currentLock, AOF_FLAG_UPDATED)
 					}
